@@ -18,6 +18,7 @@ const (
 	classV4Orphan = "C02-K-v4-allocation-without-lease-never-reclaimed"
 	// the relay-aware circuit-id index shares one line's binding between MACs
 	classV4Circuit = "C02-K-v4-circuit-id-shared-binding"
+	classV4CircuitStale = "C02-K-v4-circuit-id-index-stale-after-circuit-change"
 	classV6NoExpiry = "C02-K-v6-no-lease-expiry"
 	classV6Orphan   = "C02-K-v6-advertise-without-binding-never-reclaimed"
 	classV6Decline  = "C02-K-v6-decline-handled-as-release"
@@ -50,6 +51,18 @@ func classify(v *report.Violation) {
 		if v.Kind == "O1-ack-offered-to-other" && strings.Contains(v.Detail, "offer made through the circuit-id index") {
 			v.Class = classV4Circuit
 		}
+		// consequences of an earlier take-over of a line's lease by a second MAC (the first MAC's
+		// entry had expired but was still in the table, so the duplicate was not an O2 at that
+		// moment): both entries exist, releasing/expiring one frees the address under the other
+		if (v.Kind == "O1-ack-leased-to-other" || v.Kind == "O2-two-bindings") && lineTakenOver(v.Trace) {
+			v.Class = classV4Circuit
+		}
+		// a client whose circuit-id changed (second relayed REQUEST with another circuit-id) leaves
+		// its old circuit-id index entry behind, pointing at a lease object that is no longer in the
+		// table; a later relayed DISCOVER on the old circuit-id is offered that dead lease's address
+		if (v.Kind == "O1-ack-offered-to-other" || v.Kind == "O5-declined-reoffered" || v.Kind == "O1-ack-leased-to-other" || v.Kind == "O2-two-bindings") && staleCircuitUsed(v.Trace) {
+			v.Class = classV4CircuitStale
+		}
 	case strings.HasPrefix(v.Part, "dhcpv6"):
 		// the v6 server keeps no record of declined addresses at all (handleDecline = handleRelease):
 		// a declined address going out again is always this root cause
@@ -73,4 +86,45 @@ var reHolder = regexp.MustCompile(`which (\S+) holds \(unexpired\)`)
 func digest(dump string) string {
 	h := sha256.Sum256([]byte(dump))
 	return hex.EncodeToString(h[:16])
+}
+
+var reRelReq = regexp.MustCompile(`^(\S+):rREQ-sel/(\S+)$`)
+
+// lineTakenOver: two DIFFERENT clients were acknowledged (relayed REQUEST) on the same circuit-id.
+func lineTakenOver(trace []string) bool {
+	first := map[string]string{} // circuit -> first client
+	for _, t := range trace {
+		if m := reRelReq.FindStringSubmatch(t); m != nil {
+			if c, ok := first[m[2]]; ok && c != m[1] {
+				return true
+			}
+			if _, ok := first[m[2]]; !ok {
+				first[m[2]] = m[1]
+			}
+		}
+	}
+	return false
+}
+
+// staleCircuitUsed: one client sent relayed REQUESTs with two different circuit-ids and a relayed
+// DISCOVER on the FIRST of them follows.
+func staleCircuitUsed(trace []string) bool {
+	for i, t := range trace {
+		m := reRelReq.FindStringSubmatch(t)
+		if m == nil {
+			continue
+		}
+		for j := i + 1; j < len(trace); j++ {
+			m2 := reRelReq.FindStringSubmatch(trace[j])
+			if m2 == nil || m2[1] != m[1] || m2[2] == m[2] {
+				continue
+			}
+			for _, u := range trace[j+1:] {
+				if strings.HasSuffix(u, ":rDISCOVER/"+m[2]) {
+					return true
+				}
+			}
+		}
+	}
+	return false
 }
